@@ -291,9 +291,16 @@ def argv_runs(res, wd, args):
     text = ('(declare-const x Int)\n(declare-const y Int)\n'
             '(assert (> x y))\n(assert (< y 3))\n(check-sat)\n')
     names = ['in.smt2', 'in.smt', 'in.sy', 'noext', 'a.b.c', 'in.SMT2',
-             '.hidden']
+             '.hidden',
+             # the named input file is a symbolic link to a file with
+             # another extension or none
+             ('latest.smt2', 'store/SHA256-s36--9f2c41d07be3'),
+             ('bench.smt2', 'store/data.txt'), ('plain', 'store/x.smt2')]
     k = 0
     for name in names:
+        target = None
+        if isinstance(name, tuple):
+            name, target = name
         for extra in ([], ['--flag'], ['-a', 'b c'.replace(' ', '_'), '3']):
             for strat, j in (('ddmin', 1), ('hierarchical', 2), ('ddmin',
                                                                  4)):
@@ -305,6 +312,7 @@ def argv_runs(res, wd, args):
                 rules = realrun.simple_spec('has:x')
                 run = realrun.run_ddsmt(
                     d, text, rules, infile_name=name,
+                    infile_link_target=target,
                     outfile_name='result.out',
                     extra_cmd_args=extra,
                     opts=['--strategy', strat, '-j', str(j), '--timeout',
@@ -327,6 +335,7 @@ def argv_runs(res, wd, args):
                             f'extension {ext!r}', {
                                 'argv': av,
                                 'input_name': name,
+                                'input_is_link_to': target,
                                 'extra': extra
                             })
                         break
